@@ -104,6 +104,10 @@ impl Completions {
     }
 
     pub(crate) fn drop(&mut self, shared: &Shared) {
+        // From here on submissions are no longer submitted to the kernel (by
+        // us), so for example `AsyncFd`s need to be closed synchronously.
+        shared.set_ring_dropped();
+
         // Submit any pending operations, mainly aiming to submit clean up
         // operations such as asynchronously closing fds, etc.
         let mut flags = 0; // Only submit.
